@@ -301,3 +301,10 @@ OBLIGATIONS = [
                      "Grammar.instruction_line_pattern.match and before re.search in _parse_tag_operator_value (C regex engine): "
                      "bounded exhaustive over the strings, each decided by a concrete run", "log statements removed at import"]),
 ]
+
+MANIFEST = {
+    "level": "model_checking",
+    "text": "Bounded exhaustive symbolic execution (CrossHair/z3) of the real indentation pass of PcodeParser.parse_method: every text of 4 (quick) / 5 (thorough) lines over the line kinds, the indentation of every line an unbounded solver integer, checked against a reference nesting written from the property statement (one node per line, ids in source order, reference parent while nothing is flagged, badly indented lines flagged, no flag on strictly well indented text). The lexer contract the pass relies on is a finite table over the real _parse_line; totality of parsing on arbitrary short strings is bounded exhaustive with the string concretised at the C regex engine.",
+    "note": "Trusted: CrossHair's int model, z3, the reference nesting in props/C17.py. int((a-b)/4) is evaluated as exact integer division in CrossHair's model. Obligation totality is decided by concrete runs (solver-enumerated strings of length <= 2/3 in 16 frames); obligation lexer_contract is a table. Longer texts and strings are outside the claim.",
+    "technique": "symbolic execution of the real code (CrossHair + z3), bounded exhaustive path exploration with unbounded symbolic indentation, counterexample replay; finite table; solver-enumerated concrete runs at the regex boundary",
+}
